@@ -211,9 +211,11 @@ def ast_agreement(ck):
     if lib is None or ho is None or not lib.fns:
         raise AnalysisBroken("the header-only configuration (qtlogger.h as one translation unit) could not be extracted")
     ck.rule("C20-O2", "every function of the library build exists in the header-only build (qtlogger.h) with an identical normalised AST")
+    # closure types print as "(lambda at <file>:<line>:<col>)": the file differs between the two builds by construction
+    nsig = lambda sg: re.sub(r"\(lambda at [^)]*\)", "(lambda)", sg or "")
     by_sig = {}
     for f in ho.fns.values():
-        by_sig.setdefault(f.sig, []).append(f)
+        by_sig.setdefault(nsig(f.sig), []).append(f)
     n = 0
     bad = 0
     for f in sorted(lib.fns.values(), key=lambda f: f.sig):
@@ -221,7 +223,7 @@ def ast_agreement(ck):
             continue
         n += 1
         ck.touch(f)
-        cands = [x for x in by_sig.get(f.sig, []) if not x.lambda_of]
+        cands = [x for x in by_sig.get(nsig(f.sig), []) if not x.lambda_of]
         if not cands:
             bad += 1
             ck.ob("C20-O2", "%s (%s)" % (f.loc(), f.sig), False, "defined in the library sources but absent from qtlogger.h", key="missing-in-header|%s" % f.sig)
